@@ -194,7 +194,10 @@ def build_dataset(case, order, colorder=None):
         feat_names = [feat_names[j] for j in colorder]
     d = {"tgt": [bool(case["tgt"][i]) for i in idx], "spec": [int(i) for i in order],
          "pep": ["PEP%d" % i for i in order]}
-    for nme in feat_names:
+    # frame_rot: the columns stand in the table in ANOTHER order than the declared feature list (the declared order is the
+    # order of the feature matrix)
+    frame_names = (feat_names[1:] + feat_names[:1]) if case.get("frame_rot") else feat_names
+    for nme in frame_names:
         d[nme] = cols[nme]
     df = pd.DataFrame(d)
     return mokapot.dataset.LinearPsmDataset(df, target_column="tgt", spectrum_columns="spec", peptide_column="pep",
@@ -404,7 +407,7 @@ def case_from_group(key, g, idx):
     case = {"src": "tlc", "n": n, "tgt": list(tgt), "names": ["fa", "fb"],
             "feats": {"fa": list(a), "fb": ident}, "direction": "fa", "thr": list(thr), "maxit": it,
             "est": {"kind": "int", "cols": [2, 1], "proba": ["", "", "2col", "1col", "flat"][idx % 5]},
-            "model": {"outcome": any_run["outcome"], "pred": any_run["pred"]}, "variants": []}
+            "model": {"outcome": any_run["outcome"], "pred": any_run["pred"]}, "variants": [], "frame_rot": bool(idx % 3 == 1)}
     # the runs TLC explored: rows in id order, the rng returns `perm`
     case["variants"].append({"order": ident, "shuffle": True, "perm": p0, "extra": "rot" if idx % 2 else "rev",
                              "in_tlc": True in g})
@@ -453,6 +456,7 @@ def random_case(rng, idx, real_kind=None):
     case["variants"].append({"order": order, "shuffle": True, "perm": None, "seed": int(rng.integers(0, 2 ** 31)),
                              "extra": "rot" if idx % 3 == 0 else False})
     case["variants"].append({"order": order, "shuffle": False, "perm": None, "seed": int(rng.integers(0, 2 ** 31))})
+    case["frame_rot"] = bool(idx % 3 == 1)
     return case
 
 
